@@ -174,7 +174,7 @@ def steps_broken(prop, lean_dir, build_ok, build_out):
             if st <= ln: name = n
         if name: failed.add(name)
         else: unmapped = True
-    if not failed or unmapped or 'Steps.lean:' in build_out:
+    if not failed or unmapped or 'Generated/Steps.lean:' in build_out:
         failed = set(STEP_DEPS)          # the generated file itself does not elaborate: nothing is shown any more
     broken = ['TieSteps.%s no longer checks: the Rust %s differ from the model\'s table (see lean/DnsVerif/Generated/Steps.lean)' % (
         t, 'readers' if 'dec' in t else 'writers' if 'enc' in t else 'codec functions') for t in mine if t in failed]
